@@ -212,6 +212,15 @@ func deriveAlias(shape string, full enc.Name) (a, b enc.Name, ok bool) {
 			return nil, nil, false
 		}
 		return base[i:j], base[i2:k], true
+	case "rep":
+		// rep:ra:rb:i:j — the SAME value base[i:j] presented in two Go representations (see present)
+		i, j := num(3), num(4)
+		if len(f) != 5 || !in(i, j) || len(f[1]) != 1 || len(f[2]) != 1 {
+			return nil, nil, false
+		}
+		a, ok1 := present(f[1][0], base[i:j])
+		b, ok2 := present(f[2][0], base[i:j])
+		return a, b, ok1 && ok2
 	case "same", "clone", "val", "cap":
 		i, j := num(1), num(2)
 		if len(f) != 3 || !in(i, j) {
@@ -235,6 +244,80 @@ func deriveAlias(shape string, full enc.Name) (a, b enc.Name, ok bool) {
 		}
 	}
 	return nil, nil, false
+}
+
+func eqNames(a, b enc.Name) bool {
+	if len(a) != len(b) {
+		return false
+	}
+	for i := range a {
+		if a[i].Typ != b[i].Typ || !bytes.Equal(a[i].Val, b[i].Val) {
+			return false
+		}
+	}
+	return true
+}
+
+// present returns the value w in a particular Go representation; the model has ONE value for all of them (the encoding
+// decides), so Equal/Compare/IsPrefix/Hash/Bytes/String must not distinguish them.
+//   s  the slice as it is (a window of the backing array; w[:0]-style when empty)
+//   n  the zero value Name(nil) when w is empty (else s)
+//   z  nilName[:0] when w is empty (else s)
+//   e  Name{} (non-nil, empty literal) when w is empty, else a fresh copy
+//   c  w.Clone()
+//   p  what the URI parser returns for w.String()           (when it returns the same value, else s)
+//   d  what the wire decoder returns for w.Bytes()          (when it returns the same value, else s)
+//   v  fresh copy whose empty component values are nil      w  fresh copy whose empty component values are []byte{}
+func present(rep byte, w enc.Name) (enc.Name, bool) {
+	switch rep {
+	case 's':
+		return w, true
+	case 'n':
+		if len(w) == 0 {
+			return enc.Name(nil), true
+		}
+		return w, true
+	case 'z':
+		if len(w) == 0 {
+			var x enc.Name
+			return x[:0], true
+		}
+		return w, true
+	case 'e':
+		if len(w) == 0 {
+			return enc.Name{}, true
+		}
+		return cloneName(w), true
+	case 'c':
+		return w.Clone(), true
+	case 'p':
+		if r, err := enc.NameFromStr(w.String()); err == nil && eqNames(r, w) {
+			return r, true
+		}
+		return w, true
+	case 'd':
+		if r, err := enc.NameFromBytes(w.Bytes()); err == nil && eqNames(r, w) {
+			return r, true
+		}
+		return w, true
+	case 'v', 'w':
+		m := make(enc.Name, len(w))
+		for i, c := range w {
+			m[i] = enc.Component{Typ: c.Typ, Val: append([]byte{}, c.Val...)}
+			if len(c.Val) == 0 {
+				if rep == 'v' {
+					m[i].Val = nil
+				} else {
+					m[i].Val = []byte{}
+				}
+			}
+		}
+		if len(w) == 0 && rep == 'v' {
+			return nil, true
+		}
+		return m, true
+	}
+	return nil, false
 }
 
 // apair: every relational call family on operands that alias in memory; the answers must depend on the values only
@@ -1215,6 +1298,13 @@ func runSweeps(e *emitter, g *gen, thorough bool) {
 				for _, sh := range []string{"same", "clone", "val", "cap"} {
 					e.apair(fmt.Sprintf("%s:%d:%d", sh, i, j), full)
 				}
+				if j-i <= 2 { // one value in two Go representations (nil / empty / parsed / decoded / cloned; nil / empty Val)
+					for _, ra := range "snzecpdvw" {
+						for _, rb := range "snzecpdvw" {
+							e.apair(fmt.Sprintf("rep:%c:%c:%d:%d", ra, rb, i, j), full)
+						}
+					}
+				}
 				for k := i; k <= n; k++ {
 					e.apair(fmt.Sprintf("sub:%d:%d:%d", i, j, k), full)
 				}
@@ -1350,6 +1440,12 @@ func runGenerated(e *emitter, g *gen, ncases int, thorough bool) {
 			i2 := g.r.Intn(n)
 			e.apair(fmt.Sprintf("ovl:%d:%d:%d:%d", i, j, i2, i2+g.r.Intn(n-i2+1)), full)
 			e.apair(fmt.Sprintf("%s:%d:%d", []string{"same", "clone", "val", "cap"}[g.r.Intn(4)], i, j), full)
+			reps := "snzecpdvw"
+			ri, rj := i, j
+			if g.r.Intn(2) == 0 {
+				rj = ri // the zero-component name, the case where nil and empty slices differ
+			}
+			e.apair(fmt.Sprintf("rep:%c:%c:%d:%d", reps[g.r.Intn(len(reps))], reps[g.r.Intn(len(reps))], ri, rj), full)
 		}
 		if len(a) > 0 && len(b) > 0 {
 			e.comp(a[g.r.Intn(len(a))], b[g.r.Intn(len(b))])
